@@ -218,5 +218,32 @@ Definition run_logged_dir (use_tot : bool) (dm : list (list (option nat))) (n : 
 Definition count_la (loop : list lop) : nat :=
   length (filter (fun o => match o with LA _ => true | LO _ => false end) loop).
 
+(** ---- observed runs (steps and pivots reported by a guarded call-out of the code) ---- *)
+
+(** boolean form of [legal_pivots] (Algo/EssSccStatements.v): one pivot per component, a node
+    of that component *)
+Definition legal_pivotsb (n : nat) (comp : list nat) (k : nat) (piv : list nat) : bool :=
+  (length piv =? k) &&
+  forallb (fun c => (nth c piv 0 <? n) && (nth (nth c piv 0) comp 0 =? c)) (seq 0 k).
+
+(** an observed directed run, as [run_observed_dm] *)
+Definition run_observed_dir (dm : list (list (option nat))) (n : nat) (sd : sdata)
+    (radial : list bool) (ops : list op) (l : level) : bool * (counters * ess_out) :=
+  let h := split_heur false dm n radial ops in
+  run_logged_dir false dm n sd radial (firstn h ops) (map LO (skipn h ops)) l.
+
+(** information: the pivots the model of [find_best_pivot] would choose at every SCC step *)
+Fixpoint model_pivots_dir (use_tot : bool) dm (n : nat) (sd : sdata) radial (ops : list op)
+    (vis : list (bool * nat)) (x : st) : list (list nat) :=
+  match ops with
+  | [] => []
+  | o :: r =>
+    let rest := model_pivots_dir use_tot dm n sd radial r (visit_pivots_dir [o] ++ vis) (step_dir dm sd radial o x) in
+    match o with
+    | OAll _ _ => best_pivots_dir use_tot n (sd_comp sd) (sd_k sd) (tot_dir dm n vis) x :: rest
+    | _ => rest
+    end
+  end.
+
 End EssSccM.
 Export EssSccM.
